@@ -23,15 +23,11 @@ import (
 // (if it does not, the proto codec already lost something — which is the
 // property).
 type ValScript struct {
-	Kind string
-	// Strict: the shapes of the listed findings were removed by construction
-	// (empty Bytes values at generation time, the three JSON-lossy fields before
-	// the JSON phase), so that every oracle is evaluated without masking.
-	Strict bool
-	Proto  []byte
-	JSON   string
-	Tree   string
-	v      any
+	Kind  string
+	Proto []byte
+	JSON  string
+	Tree  string
+	v     any
 }
 
 // MarshalJSON fills the derived fields from the live value.
@@ -55,16 +51,7 @@ var cVal = newC("value-roundtrip")
 func genVal(t *rapid.T) ValScript {
 	k := kindGen().Draw(t, "kind")
 	v := codecs[k].gen(t, wideOpts(t))
-	// Listed findings: nine cases out of ten are made free of their shapes by
-	// construction so that every byte-level oracle stays strict; the tenth keeps
-	// them (evaluated through c.Soft).
-	strict := rapid.IntRange(0, 9).Draw(t, "keep-listed-shapes") != 0
-	if strict {
-		if sanitizeEmptyBytes(v) > 0 {
-			cVal.Exclude("empty-bytes-value(replaced-by-1-byte)")
-		}
-	}
-	return ValScript{Kind: k, Strict: strict, v: v}
+	return ValScript{Kind: k, v: v}
 }
 
 // wideOpts: pgen.Wide(), sometimes with larger fan-out so that multi-byte
@@ -99,7 +86,7 @@ func runVal(s ValScript) (nt bool, key string, f *vt.Finding) {
 		}
 	}
 	cVal.HangGuard(hangLimit, s, "hang/value/"+s.Kind, func() {
-		nt, key, f = checkValue(cVal, c, v, s.Strict, s)
+		nt, key, f = checkValue(cVal, c, v, s)
 	})
 	return nt, key, f
 }
@@ -112,9 +99,8 @@ func cut(s string) string {
 }
 
 // checkValue evaluates O1 on value v of kind c.  script is only used for
-// reporting listed findings.  With strict, the JSON phase runs on a decoded
-// copy from which the listed JSON-lossy field contents were cleared.
-func checkValue(col *vt.C, c *codec, v any, strict bool, script any) (nontrivial bool, key string, f *vt.Finding) {
+// reporting listed findings.
+func checkValue(col *vt.C, c *codec, v any, script any) (nontrivial bool, key string, f *vt.Finding) {
 	key = c.name
 	var tree any
 	if p, d := guarded(func() { tree = pview.Of(v) }); p {
@@ -166,21 +152,7 @@ func checkValue(col *vt.C, c *codec, v any, strict bool, script any) (nontrivial
 	}
 
 	// ---- JSON: lossless, idempotent, consistent with proto
-	vj, treej, bpj := v, tree, bp
-	if strict {
-		// v2 is an independent copy whose tree and bytes were just shown equal to v's
-		if cleared := sanitizeJSONKnown(v2); len(cleared) > 0 {
-			for _, fl := range cleared {
-				col.Exclude("json-phase:" + fl + "(cleared)")
-			}
-			treej = pview.Of(v2)
-			if bpj, err = c.encP(v2); err != nil {
-				return nontrivial, key, vt.Failf("marshal-error/proto/"+c.name, "MarshalProto fails after clearing fields: %v", err)
-			}
-			vj = v2
-		}
-	}
-	if f := checkJSON(col, c, vj, treej, bpj, facts, script); f != nil {
+	if f := checkJSON(col, c, v, tree, bp, facts, script); f != nil {
 		return nontrivial, key, f
 	}
 	return nontrivial, key, nil
@@ -226,19 +198,6 @@ func checkJSON(col *vt.C, c *codec, v any, tree any, bp []byte, facts *treeFacts
 		return nil
 	}
 	bj2, err := c.encJ(v3)
-	if facts.emptyBytesVal && err == nil {
-		bp3, _ := c.encP(v3)
-		if !bytes.Equal(bj, bj2) || !bytes.Equal(bp, bp3) {
-			// same root cause as the proto loss: the nil slice inside the one-of is written as
-			// "bytesValue":null, read back as a non-nil empty slice, and from then on written as "" / 3a 00
-			kf := vt.Failf("value-empty-bytes-becomes-empty/json", "a zero-length Bytes value is marshaled as \"bytesValue\":null; the decoded value re-marshals to \"bytesValue\":\"\" and to proto bytes that differ from the original's (kind %s)", c.name)
-			if !col.Soft(kf, script) {
-				return kf
-			}
-			col.Class("json-bytes-not-compared(listed-loss)")
-			return nil
-		}
-	}
 	if err != nil || !bytes.Equal(bj, bj2) {
 		return vt.Failf("remarshal/json/"+c.name, "re-marshaling the JSON-decoded value gives different JSON (err=%v)\n first  %s\n second %s", err, cut(string(bj)), cut(string(bj2)))
 	}
